@@ -163,3 +163,15 @@ P['C04'] = dict(
     dict(name='H04D', src='C02_step.cpp', covers=['constructed', 'swapped', 'inserted', 'end'], defines={'VCAP': 8, 'NCELLS': 3}, cfg=dict(fp='havoc'), ir_srcs=ALL_IR, native_srcs=ALL_IR, native_flags=['-llemon'],
          thorough=dict(defines={'NCELLS': 4})),
   ])
+
+P['C11'] = dict(
+  design_ref='DESIGN.md section 3 C11',
+  level_text='Decomposition: (A) the ordering kernel computeCellOrder keeps two non-overlapping cells of one row in left-to-right order for symbolic geometry |v|<2^20 and for parameter sets accepted by the check (float arithmetic in the linear error model fl(e)=e+eta; a failure is searched with exact z3 floating point); (B) AbacusLegalizer, given a symbolic legal placement (split row + second row, symbolic segment bounds, widths, positions up to 2^20) whose cells are presented left to right within each row, places every cell exactly where it was. (A) and (B) compose to the property for the parameter sets where (A) holds.',
+  text=dict(bounds=dict(quick='A: 2 cells, orderingWidth in {0, 0.2, 0.5, 1} and the rejected values {-1, 1.5, 2}, orderingY symbolic in its accepted range; B: 2 cells on 3 segments', thorough='B: 3 cells'),
+            outside='multi-row cells (excluded by the property); more than 3 cells; coordinates beyond 2^20 (float key no longer exact)'),
+  assumptions=STD_ASSUME + ['float arithmetic of the ordering key over-approximated by the linear error model (sound for proofs)'],
+  harnesses=[
+    dict(name='H11A', src='C11_idempotent.cpp', covers=['end'], defines={'VCAP': 4, 'H11A': None, 'PSETS': 8}, cfg=dict(fp='real', query_timeout_ms=60000), diff_samples=0, ir_srcs=ALL_IR, native_srcs=ALL_IR, native_flags=['-llemon']),
+    dict(name='H11B', src='C11_idempotent.cpp', covers=['end'], defines={'VCAP': 8, 'H11B': None, 'NC': 2}, cfg=dict(fp='havoc'), split=2, ir_srcs=ALL_IR, native_srcs=ALL_IR, native_flags=['-llemon'],
+         thorough=dict(defines={'NC': 3}, cfg=dict(time_budget=900))),
+  ])
